@@ -413,21 +413,40 @@ func TestVerifC16Flow(t *testing.T) {
 	rec := kit.NewRec("C16", "flow")
 	defer rec.Close()
 	rng := kit.Rand("c16flow")
+	// a scenario that ends in its (long) watchdog is a violation witness; one witness per kind is enough,
+	// the remaining scenarios of that kind would each sit out the same watchdog
+	slow := func(f func()) bool {
+		t0 := time.Now()
+		v0 := rec.Violations()
+		f()
+		return rec.Violations() > v0 && time.Since(t0) > 20*time.Second
+	}
+	skipStale, skipClose, skipFlow := false, false, false
 	for _, v := range []string{"server", "client"} {
 		for _, last := range []int{1, 1200, 65536, 131072} {
-			verifC16StaleToken(rec, v, last)
+			if !skipStale {
+				skipStale = slow(func() { verifC16StaleToken(rec, v, last) })
+			}
 		}
 		for _, w := range []int{1, 3} {
 			for _, stale := range []bool{false, true} {
 				for _, d := range []int{0, 200} {
-					verifC16CloseReleases(rec, v, w, stale, d)
+					if !skipClose {
+						skipClose = slow(func() { verifC16CloseReleases(rec, v, w, stale, d) })
+					}
 				}
 			}
 		}
 	}
 	n := kit.Tier(40, 600)
 	for i := 0; i < n; i++ {
-		verifC16RunFlow(rec, verifC16RandFlow(rng))
+		cs := verifC16RandFlow(rng)
+		if !skipFlow {
+			skipFlow = slow(func() { verifC16RunFlow(rec, cs) })
+		}
+	}
+	if skipStale || skipClose || skipFlow {
+		rec.Note("scenarios were skipped after a violation that ended in a watchdog")
 	}
 }
 
